@@ -1796,12 +1796,14 @@ class TagNode(_ElementWrappingNode, NodeBase):
             return self.attributes[item]
 
         elif isinstance(item, int):
-            if item < 0:
-                item = len(self) + item
+            # the positions must not change through merged text nodes meanwhile
+            with _wrapper_cache:
+                if item < 0:
+                    item = len(self) + item
 
-            for index, child_node in enumerate(self.iterate_children()):
-                if index == item:
-                    return child_node
+                for index, child_node in enumerate(self.iterate_children()):
+                    if index == item:
+                        return child_node
 
             raise IndexError("Node index out of range.")
 
@@ -1838,13 +1840,14 @@ class TagNode(_ElementWrappingNode, NodeBase):
         if isinstance(item, (str, tuple)):
             self.attributes[item] = value
         elif isinstance(item, int):
-            children_size = len(self)
-            if not children_size and item == 0:
-                self.__add_first_child(value)
-            else:
-                if not 0 <= item < children_size:
-                    raise IndexError
-                self[item].replace_with(value)
+            with _wrapper_cache:
+                children_size = len(self)
+                if not children_size and item == 0:
+                    self.__add_first_child(value)
+                else:
+                    if not 0 <= item < children_size:
+                        raise IndexError
+                    self[item].replace_with(value)
         else:
             raise TypeError(
                 "Argument must be an integer or an attribute name. "
@@ -2267,26 +2270,28 @@ class TagNode(_ElementWrappingNode, NodeBase):
         if index < 0:
             raise ValueError("Index must be zero or a positive integer.")
 
-        children_count = len(self)
-
-        if index > children_count:
-            raise IndexError("The given index is beyond the target's size.")
-
         this, *queue = node
         result: tuple[NodeBase, ...]
 
-        if index == 0:
-            if children_count:
-                result = self[0].add_preceding_siblings(this, clone=clone)
+        # the positions must not change through merged text nodes meanwhile
+        with _wrapper_cache:
+            children_count = len(self)
+
+            if index > children_count:
+                raise IndexError("The given index is beyond the target's size.")
+
+            if index == 0:
+                if children_count:
+                    result = self[0].add_preceding_siblings(this, clone=clone)
+                else:
+                    result = (self._prepare_new_relative((this,), clone=clone)[0],)
+                    self.__add_first_child(result[0])
+
             else:
-                result = (self._prepare_new_relative((this,), clone=clone)[0],)
-                self.__add_first_child(result[0])
+                result = self[index - 1].add_following_siblings(this, clone=clone)
 
-        else:
-            result = self[index - 1].add_following_siblings(this, clone=clone)
-
-        if queue:
-            result += self[index].add_following_siblings(*queue, clone=clone)
+            if queue:
+                result += self[index].add_following_siblings(*queue, clone=clone)
 
         return result
 
